@@ -163,6 +163,9 @@ def body(chk):
     from harness import tlaps
 
     tlaps.prove(chk)
+    from harness import envrun
+
+    envrun.run(chk, {"pixels", "load_values", "spurious_error"})
     chk.finish(
         rule="cases = every (n,p,prefix,bps,rpc) geometry of the TLC family x filesystems x selections (full image + "
              "TLC-enumerated row progressions) + seeded random geometries outside the bound; distinct = distinct "
